@@ -158,7 +158,7 @@ func (in *Interp) ensureInit(pkg *ssa.Package) {
 		in.unsupported("package %s could not be initialised: %s", pkg.Pkg.Path(), msg)
 	}
 	switch pkg.Pkg.Path() {
-	case "time", "fmt", "os", "reflect", "sync", "runtime", "syscall", "regexp", "regexp/syntax", "unicode", "errors", "internal/reflectlite", "internal/abi", "unsafe", "sync/atomic":
+	case "time", "fmt", "os", "reflect", "sync", "runtime", "syscall", "regexp", "regexp/syntax", "unicode", "errors", "internal/reflectlite", "internal/abi", "unsafe", "sync/atomic", "encoding/json":
 		// modelled packages: globals get zero values / handles, init is not interpreted
 		in.initDone[pkg] = true
 		for _, m := range pkg.Members {
